@@ -328,6 +328,12 @@ impl Op {
         self.est_cost_us() > 2000
     }
 
+    /// Calls that would hit a yield site hundreds of thousands of times (one per produced child
+    /// id): executed with the calling thread's yield sites off.
+    pub fn suppress_yields(&self) -> bool {
+        matches!(self, Op::CellToChildren { .. } | Op::Uncompact { .. }) && self.is_big()
+    }
+
     /// Does the call go through the calling thread's projection memo?
     pub fn uses_tl(&self) -> bool {
         matches!(
